@@ -300,6 +300,15 @@ def diagnose(c, o, clause):
             if any(s["id"] in names and len(s["scatter"]) > 1 and s.get("method") in (None, "dotproduct")
                    for s in _steps(c["wf"])):
                 return "dotproduct-empty-vs-nonempty"
+        if "Expected only one source" in w:
+            # the failing pick is an output of a SCATTERED subworkflow fed directly by a subworkflow input: StreamFlow
+            # never sees the values there (root cause B), so it cannot fail like the reference
+            names = set(re.findall(r"source for '(\w+)'", w))
+            for st in _steps(c["wf"]):
+                if st["scatter"] and "wf" in st["run"] and any(
+                        x["id"] in names and x.get("pv") and any("/" not in r for r in x["src"])
+                        for x in st["run"]["wf"]["outputs"]):
+                    return "scattered-subworkflow-passthrough"
         only = lambda l: _DUP(l) and l.get("pv") == "the_only_non_null"   # noqa: E731
         if "Expected only one source" in w:
             names = set(re.findall(r"source for '(\w+)'", w))
